@@ -514,11 +514,13 @@ func (lm *LockModel) analyse(fl *fnLocks) {
 				if cls, trueIsSucc, ok := lm.tokenCAS(ifi.Cond); ok {
 					if (i == 0) == trueIsSucc {
 						es.acq |= 1 << uint(cls) // the caller runs on behalf of the exclusive owner
+						es.excl |= 1 << uint(cls)
 					}
 				}
 				if lm.DB >= 0 && lm.multiOK[fn] {
 					if trueIsSet, ok := lm.multiTest(ifi.Cond); ok && (i == 0) == trueIsSet {
 						es.acq |= 1 << uint(lm.DB) // replayed by EXEC under the exclusive hold
+						es.excl |= 1 << uint(lm.DB)
 					}
 				}
 			}
